@@ -107,6 +107,14 @@ func genStreams(r *simrt.RNG, tier string, variant int, prop string) Plan {
 		case "cut":
 			p.Faults = append(p.Faults, Fault{Kind: Pick(r, []string{"fin", "rst", "blackhole-both", "stall"}), Pipe: 0, Dir: Pick(r, []string{"s2c", "s2c", "c2s"}),
 				Frame: r.Intn(14), Pos: Pick(r, cutPos), DurNs: int64(45e9)})
+			if r.Bool(0.5) {
+				// streams opened on the re-established connection, after everything healed
+				for k := 0; k < 1+r.Intn(2); k++ {
+					tok2 := 500 + len(p.Ops) // unique even when several cuts are planned
+					_ = k
+					p.Ops = append(p.Ops, Op{Kind: "sub", Client: 0, Tok: tok2, N: Pick(r, []int{10, 60, 200}), Phase: 2})
+				}
+			}
 		}
 	}
 	return p
@@ -184,6 +192,21 @@ func runStreams(e *Env, p *Plan) {
 		e.S.Settle(time.Minute)
 		e.N.Heal()
 		horizon = H
+		late := false
+		for _, op := range p.Ops {
+			late = late || op.Phase == 2
+		}
+		if late {
+			if !e.S.Settle(2 * time.Minute) {
+				return
+			}
+			for _, op := range p.Ops {
+				if op.Phase == 2 {
+					e.Probe("stream-opened-after-the-reconnect")
+					w.Start(op, ctxs[op.Tok])
+				}
+			}
+		}
 	}
 	if !e.S.Settle(horizon) {
 		return
